@@ -110,6 +110,14 @@ class Engine:
     def const(self, x):
         return lift(x)
 
+    def uf(self, name, args):
+        """value of an uninterpreted real function `name` at the (finite) point args"""
+        args = [lift(a) for a in args]
+        if any(a.k != FIN for a in args):
+            raise EngineError("uninterpreted function applied to a non-finite point")
+        f = z3.Function(name, *([z3.RealSort()] * (len(args) + 1)))
+        return SymFloat(FIN, f(*[a.r for a in args]))
+
     # -- nondeterminism ----------------------------------------------------
     def choose(self, n, label=None):
         if n <= 1:
@@ -433,6 +441,16 @@ class NativeEngine:
 
     def const(self, x):
         return float(x)
+
+    def uf(self, name, args):
+        """native stand-in for an uninterpreted function: a fixed smooth function of the point, keyed on the name"""
+        h = sum((i + 1) * ord(c) for i, c in enumerate(name)) % 97
+        v = 0.1 * h
+        for i, a in enumerate(args):
+            a = float(a)
+            v += (0.37 + 0.11 * ((h + 3 * i) % 7)) * a + (0.05 + 0.01 * ((h + i) % 5)) * a * a
+            v += 0.21 * math.sin((1 + (h + i) % 3) * a)
+        return v
 
     def assume(self, cond):
         if isinstance(cond, SymBool):
